@@ -6,7 +6,7 @@ Section Sem.
 Variable V : Type.
 Variable act : V -> V.   (* multiplication by the constant c > 0 under consideration *)
 Variables (lin : nat -> V -> V) (padof : V -> V) (padapply : V -> V -> V) (maskgen : bool -> V -> V -> V)
-          (body sens masked : V -> V -> V) (scalef : bool -> V -> V) (one : V -> V) (divv : V -> V -> V) (image : V -> V) (images : V -> V -> V) (const nopad : V).
+          (body sens masked : V -> V -> V) (scalef : bool -> V -> V) (one : V -> V) (divv : V -> V -> V) (image : V -> V) (images : V -> V -> V) (split : bool -> V -> V -> V) (const nopad : V).
 
 (* homogeneity contracts of the operations (trusted base; each is validated on the implementation stage by stage) *)
 Hypothesis lin_h : forall n v, lin n (act v) = act (lin n v).
@@ -39,6 +39,7 @@ Fixpoint eval (rho : key -> V) (t : tm) : V :=
   | TDiv t s => divv (eval rho t) (eval rho s)
   | TImage t => image (eval rho t)
   | TImageS t s => images (eval rho t) (eval rho s)
+  | TSplit b m a => split b (eval rho m) (eval rho a)
   | TConst => const
   end.
 
@@ -47,7 +48,7 @@ Definition scaled (rho : key -> V) : key -> V := fun k => sc (raw_deg k) (rho k)
 
 Theorem eval_homog rho : forall t d, tdeg t = Some d -> eval (scaled rho) t = sc d (eval rho t).
 Proof.
-  induction t as [k|n t IH|t IH|t IHt p IHp|a s IHs p IHp| |t IHt a IHa|t IHt a IHa|m IHm t IHt|p t IH|t IH|t IHt s IHs|t IH|t IHt s IHs|]; intros d H; cbn [tdeg eval] in *.
+  induction t as [k|n t IH|t IH|t IHt p IHp|a s IHs p IHp| |t IHt a IHa|t IHt a IHa|m IHm t IHt|p t IH|t IH|t IHt s IHs|t IH|t IHt s IHs|b m IHm a IHa|]; intros d H; cbn [tdeg eval] in *.
   - inversion H; subst. reflexivity.
   - rewrite (IH d H). destruct d; cbn [sc]; [reflexivity|apply lin_h].
   - destruct (tdeg t) as [d'|]; [|discriminate]. inversion H; subst. rewrite (IH d' eq_refl). destruct d'; cbn [sc]; [reflexivity|apply padof_h].
@@ -73,6 +74,8 @@ Proof.
   - rewrite (IH d H). destruct d; cbn [sc]; [reflexivity|apply image_h].
   - destruct (tdeg t) as [dt|]; [|discriminate]. destruct (tdeg s) as [[|ds]|]; try discriminate. inversion H; subst.
     rewrite (IHt d eq_refl), (IHs 0 eq_refl). destruct d; cbn [sc]; [reflexivity|apply images_h].
+  - destruct (tdeg m) as [[|dm]|]; try discriminate. destruct (tdeg a) as [[|da]|]; try discriminate. inversion H; subst.
+    rewrite (IHm 0 eq_refl), (IHa 0 eq_refl). reflexivity.
   - inversion H; subst. reflexivity.
 Qed.
 
@@ -99,6 +102,7 @@ Fixpoint tm_eqb (a b : tm) : bool :=
   | TDiv t s, TDiv t' s' => tm_eqb t t' && tm_eqb s s'
   | TImage t, TImage t' => tm_eqb t t'
   | TImageS t s, TImageS t' s' => tm_eqb t t' && tm_eqb s s'
+  | TSplit b m a, TSplit b' m' a' => Bool.eqb b b' && tm_eqb m m' && tm_eqb a a'
   | TConst, TConst => true
   | _, _ => false
   end.
@@ -145,6 +149,25 @@ Definition consistent (e : env) : bool :=
       | None => false
       end
   | _, _, _, _ => false
+  end.
+
+(* the self-supervised pipeline: the two k-spaces are the normalised masked k-space restricted to the two masks the
+   splitter drew from the sampling mask; the target is the image of the target k-space *)
+Definition ssl_consistent (e : env) : bool :=
+  match lookup InputKspace e, lookup Kspace e, lookup Target e, lookup InputMask e, lookup TargetMask e, lookup ScalingFactor e with
+  | Some (TMasked mi ki), Some (TMasked mg kg), Some tg, Some mi', Some mg', Some sf =>
+      match image_arg tg, masked_parts ki, mi, mg with
+      | Some a, Some (m, x, s), TSplit false sm acs, TSplit true sm' acs' =>
+          tm_eqb a (TMasked mg kg) && tm_eqb ki kg && tm_eqb mi mi' && tm_eqb mg mg' && tm_eqb s sf && tm_eqb sm m && tm_eqb sm' m && tm_eqb acs acs'
+      | _, _, _, _ => false
+      end
+  | _, _, _, _, _, _ => false
+  end.
+
+Definition final_ok_ssl (stages : cfg -> list stage) (x : cfg) : bool :=
+  match sym_run (stages x) [(Kspace, TRaw Kspace)] with
+  | Some e => degrees_ok e && ssl_consistent e
+  | None => false
   end.
 
 Definition final_ok (stages : cfg -> list stage) (x : cfg) : bool :=
